@@ -10,6 +10,8 @@ real code : dbm.FluidMixture.density / fugacity, dbm_p.z_pr and the compiled For
             positive densities/fugacities, gas not denser; numeric tests of the derivative identities
 """
 import math
+import os
+import common
 from fractions import Fraction as Fr
 import numpy as np
 from common import req, close, relerr, TOL, run_driver
@@ -47,6 +49,31 @@ def exact_disc(A, B):
     A, B = Fr(A), Fr(B)
     a, b, c, d = Fr(1), B - 1, A - 2 * B - 3 * B * B, B ** 3 + B * B - A * B
     return 18 * a * b * c * d - 4 * b ** 3 * d + b * b * c * c - 4 * a * c ** 3 - 27 * a * a * d * d
+
+
+_FEED = {}
+
+
+def feed_tables():
+    """the group-contribution data as the distributed files give them, parsed here and not by the package: per compound the
+    FRACTION of each of the 15 Privat-Jaubert groups (counts of PJData.csv divided by the compound's total count; all zero for a
+    compound without groups) and the group-interaction tables of Aij.csv / Bij.csv in Pa (the files hold MPa)"""
+    if _FEED:
+        return _FEED
+    import csv
+    d = os.path.join(common.REPO, 'tamoc', 'data')
+    rows = list(csv.reader(open(os.path.join(d, 'PJData.csv'), encoding='utf-8-sig')))
+    frac = {}
+    for row in rows[3:]:
+        if not row or not row[0].strip():
+            continue
+        cnt = [float(x) for x in row[1:16]]
+        tot = sum(cnt)
+        frac[row[0].strip()] = [c / tot if tot else 0.0 for c in cnt]
+    _FEED['groups'] = frac
+    for nm in ('Aij', 'Bij'):
+        _FEED[nm] = [[float(x) * 1e6 for x in row] for row in csv.reader(open(os.path.join(d, nm + '.csv'))) if row]
+    return _FEED
 
 
 def gen_cases(ctx):
@@ -116,6 +143,7 @@ def run(ctx, lean_ok):
 
     lines, recs = [], []
     worst_res = 0.0
+    nfeed = 0
     nfd = {'dlnphi_dlnP': 0, 'gibbs_duhem': 0, 'phi_to_one': 0, 'skipped_discontinuous': 0}
     def items():
         # every generated case, and after a quarter of them a FOLLOW-UP on the same FluidMixture object that shares all but one
@@ -164,6 +192,22 @@ def run(ctx, lean_ok):
     for comp, fm, d, m, T, P, tag in items():
         n = len(comp)
         e = mixgen.eos_args(fm)
+        # "that mixture's" cubic: the object layer must hand the library the constants of the distributed data.  With
+        # group-contribution coefficients these are the group fractions of each compound and the two interaction tables
+        if d['delta_mode'] == 'groups':
+            ft = feed_tables()
+            want = np.array([ft['groups'].get(c, [0.0] * 15) for c in comp])
+            got = np.asarray(fm.delta_groups, dtype=float)
+            ok_g = got.shape == want.shape and bool(np.allclose(got, want, rtol=1e-12, atol=0))
+            ok_a = bool(np.allclose(np.asarray(fm.Aij, dtype=float), np.array(ft['Aij']), rtol=1e-12, atol=0, equal_nan=True))
+            ok_b = bool(np.allclose(np.asarray(fm.Bij, dtype=float), np.array(ft['Bij']), rtol=1e-12, atol=0, equal_nan=True))
+            nfeed += 1
+            if not (ok_g and ok_a and ok_b):
+                ctx.violation('object-feeds-wrong-group-data:' + ('groups' if not ok_g else 'Aij' if not ok_a else 'Bij'),
+                              'FluidMixture hands the library group-contribution data that are not those of the distributed files: '
+                              'the cubic solved is not this mixture\'s',
+                              {'composition': comp, 'groups_array': d.get('groups_array'), 'delta_groups_object': got.tolist(),
+                               'delta_groups_files': want.tolist(), 'Aij_ok': ok_a, 'Bij_ok': ok_b})
         args = (T, P, m, e['Mol_wt'], e['Pc'], e['Tc'], e['omega'], e['delta'].copy(), e['Aij'], e['Bij'], e['delta_groups'], e['calc_delta'])
         with np.errstate(all='ignore'):
             z, A, B, Ap, Bp, yk = dbm_p.z_pr(*args)
@@ -315,6 +359,7 @@ def run(ctx, lean_ok):
                nfd['dlnphi_dlnP'] >= 50 and nfd['gibbs_duhem'] >= 20 and nfd['phi_to_one'] >= 30)
     ctx.notes.append('worst exact relative residual of a reported root: %.3g' % worst_res)
     ctx.notes.append('finite-difference tests run (labelled tests, not theorems): %r' % nfd)
+    ctx.oblige('coverage floor: group-contribution mixtures whose object-layer feed was compared with the distributed files (%d)' % nfeed, nfeed >= 40)
 
     out = run_driver(ctx, 'C01', lines) if lean_ok else None
     if out is not None:
